@@ -5,11 +5,18 @@ HERE = os.path.dirname(os.path.dirname(os.path.abspath(__file__)))
 BASELINE = json.load(open("/root/.vp/BASELINE.json"))["cmd"] if os.path.exists("/root/.vp/BASELINE.json") else "cd /repo && /venv/bin/python -m pytest -ra -q -p no:cacheprovider --timeout=900 --continue-on-collection-errors"
 
 CHECKS = {
+    "C01": ("reference-model monitor: pointwise reference evaluator vs eager result at every point; dispatch-monitor culprit localisation",
+            "Typed random programs plus an enumerated depth-1 catalogue are built under the default interpretation and compared with an independent pointwise evaluator on their whole integer input space; core-fragment programs must complete to tensors. Exploration: held on the programs generated.",
+            "trusted: fv/refsem.py, fv/ir.py typing rules, numpy; reals compared at rtol 1e-6; max/min-with-mul programs only counted when no semiring rewrite ran outside its carrier", "DESIGN.md §6 C01"),
+    "C17": ("explicit stack model checked after every enter/exit step; exception injected at every level and caught at every outer level; push/pop event log on interpreter._STACK",
+            "All well-nested chains of the 9 context kinds up to the depth bound are executed in three entry styles with an exception raised at every level and handled at every outer level; after each step the active interpretation and the class of fresh probe terms must match the model. Fault enumeration over the stated bounded space.",
+            "trusted: the probe-class table per interpretation; exhaustive to depth 3 (quick) / 4 (thorough), sampled one level deeper", "DESIGN.md §6 C17"),
     # id: (technique, level text, level note, design ref)
     "C15": ("runtime oracle over op-table axioms on edge grids; scalar/0-d/array differential; NaN monitor on safe ops",
             "Every published table entry and every catalogue op is executed on an edge-value grid crossed with random values, shapes and operand orders; numpy/math/scipy arithmetic is the independent oracle. Exploration: held on the grid that was run, nothing beyond.",
             "trusted: numpy/scipy/math arithmetic; carriers as stated in the property (non-negative for max/min with mul, booleans for and/or)", "DESIGN.md §6 C15"),
 }
+LEVELS = {"C17": "fault_enumeration"}
 ALL = ["C%02d" % i for i in range(1, 21)]
 NOT_YET = {}
 
@@ -26,7 +33,7 @@ def main():
             "evidence_file": "/verif/evidence/%s.json" % cid,
             "replay_cmd_template": "./check --replay {path}",
             "engine": "fv",
-            "level_claimed": {"category": "exploration", "text": text, "design_ref": ref},
+            "level_claimed": {"category": LEVELS.get(cid, "exploration"), "text": text, "design_ref": ref},
             "level_note": note,
             "technique": tech,
         })
